@@ -298,8 +298,10 @@ def spec_two_groups(present):
     return n >= 2
 
 
-def spec_proxy_refused(tp_set, count_given, hdrs):
+def spec_proxy_refused(tp_set, count_given, hdrs, count=None):
     low = {h.lower() for h in hdrs}
+    if count_given and count is not None and count < 1:
+        return True
     known = {"forwarded", "x-forwarded-for", "x-forwarded-host", "x-forwarded-proto", "x-forwarded-port", "x-forwarded-by"}
     if count_given and not tp_set:
         return True
@@ -671,7 +673,7 @@ def group_excl(R, model_names):
 
 def group_proxy(R):
     tps = [None, "", "1.2.3.4", "*"]
-    counts = [None, "2", 1]
+    counts = [None, "2", 1, 0, -1, "0", " -3 "]
     hdrs = HEADER_VALUES
     for tp in tps:
         for c in counts:
@@ -688,7 +690,7 @@ def group_proxy(R):
                     real = R.kw_case("proxy", order)
                     if isinstance(h, (str, list)):
                         hs = h.split() if isinstance(h, str) else [x for y in h for x in y.split()]
-                        want = spec_proxy_refused(bool(tp), c is not None, hs)
+                        want = spec_proxy_refused(bool(tp), c is not None, hs, None if c is None else int(c))
                         refused = real == ("EXN", "ValueError")
                         if refused != want:
                             R.violation("proxy:%s:%s:%s" % (bool(tp), c is not None, sorted(set(x.lower() for x in hs))),
@@ -698,17 +700,35 @@ def group_proxy(R):
             # without trusted_proxy_headers at all
             kw = ([("trusted_proxy", tp)] if tp is not None else []) + ([("trusted_proxy_count", c)] if c is not None else [])
             real = R.kw_case("proxy", kw)
-            want = spec_proxy_refused(bool(tp), c is not None, [])
+            want = spec_proxy_refused(bool(tp), c is not None, [], None if c is None else int(c))
             if (real == ("EXN", "ValueError")) != want:
                 R.violation("proxy:%s:%s:none" % (bool(tp), c is not None), "proxy options %r: specification says %s, implementation %s" % (
                     kw, "refuse" if want else "accept", show(real)[:100]),
                     {"kind": "kw", "kw": kw_tokens(kw), "expected": "EXN ValueError" if want else "accepted",
                      "observed": show(real)[:500], "failing_input_found": True})
-    # the generated table, all 64 rows, against the specification formula
-    for bits in itertools.product("01", repeat=6):
+    # trusted_proxy_count must be 1 or greater: keyword and runner forms
+    for c in (0, -1, 1, 2, -100):
+        for tp in ("10.0.0.1", "*"):
+            want = c < 1
+            forms = [("kw-int", [("trusted_proxy", tp), ("trusted_proxy_count", c)], None),
+                     ("kw-str", [("trusted_proxy", tp), ("trusted_proxy_count", str(c)), ("trusted_proxy_headers", "x-forwarded-for")], None),
+                     ("cli=", None, ["--trusted-proxy=" + tp, "--trusted-proxy-count=%d" % c, "m:app"]),
+                     ("cli ", None, ["--trusted-proxy", tp, "--trusted-proxy-headers=forwarded", "--trusted-proxy-count", str(c), "m:app"])]
+            for what, kw, argv in forms:
+                real = R.kw_case("proxy-count", kw) if kw is not None else R.cli_case("proxy-count", argv)
+                refused = real == ("EXN", "ValueError")
+                got = real[1].get("trusted_proxy_count") if real[0] == "OK" else None
+                if refused != want or (not want and got != "I%d" % c):
+                    rep = {"kind": "kw", "kw": kw_tokens(kw)} if kw is not None else {"kind": "cli-accept", "argv": argv}
+                    rep.update({"expected": "EXN ValueError" if want else "accepted", "observed": show(real)[:500], "failing_input_found": True})
+                    R.violation("proxy-count:%d:%s" % (c, what.strip()),
+                                "trusted_proxy_count=%d (%s): specification says %s, implementation %s" % (
+                                    c, kw if kw is not None else argv, "refuse" if want else "accept with that count", show(real)[:100]), rep)
+    # the generated table, all 128 rows, against the specification formula
+    for bits in itertools.product("01", repeat=7):
         b = "".join(bits)
-        tpn, tpcn, hn, hu, hf, ho = [x == "1" for x in bits]
-        want = (not tpcn and tpn) or (hn and tpn) or (hn and hu) or (hn and hf and ho)
+        tpn, tpcn, cb, hn, hu, hf, ho = [x == "1" for x in bits]
+        want = (not tpcn and tpn) or (not tpcn and cb) or (hn and tpn) or (hn and hu) or (hn and hf and ho)
 
         def cb(a, b=b, want=want):
             if (a[0] == "1") != want:
@@ -1223,6 +1243,11 @@ def replay_one(data):
             c = real_cli(A, data["argv"])
             print("runner form %r -> %s ; model said %s" % (data["argv"], show(c)[:400], data.get("model")))
             return 0 if show(c)[:2000] != data.get("observed") else 1
+        if kind == "cli-accept":
+            c = real_cli(A, data["argv"])
+            now = "EXN ValueError" if c == ("EXN", "ValueError") else ("accepted" if c[0] == "OK" else show(c))
+            print("runner form %r -> %s ; expected %s" % (data["argv"], show(c)[:300], data.get("expected")))
+            return 0 if now == data.get("expected") else 1
         if kind == "middleware":
             kw = {k: dec_token(t) for k, t in data["kw"]}
             adj, installed = real_middleware(A, kw)
